@@ -57,7 +57,30 @@ def one(text, case, cfg):
     return t, roundtrip.tag(back, SKIP)
 
 
+_PRELUDE = {"done": False}
+
+
+def write_prelude():
+    """Once per process, before the first point: an unrelated object with another NULL value (and a NaN to emit) is written
+    with the default configuration.  Nothing the writer remembers from that call may show up in a later output."""
+    if _PRELUDE["done"]:
+        return
+    _PRELUDE["done"] = True
+    import io
+    import numpy as np
+    other = lasio.LASFile()
+    other.well["NULL"].value = 12345.0
+    other.append_curve("DEPT", np.array([1.0, 2.0, 3.0]), unit="m")
+    other.append_curve("X", np.array([np.nan, 5.0, np.nan]))
+    for kw in ({}, {"wrap": True}, {"version": 1.2}):
+        try:
+            other.write(io.StringIO(), **kw)
+        except Exception:
+            pass
+
+
 def check_point(pt, only=None):
+    write_prelude()
     name, text = _inputs(pt["tier"])[pt["input"]]
     case = pt["case"]
     k = 2 if pt["tier"] == "quick" else 3
